@@ -439,4 +439,68 @@ theorem Command.parse_enc (c : Command) (h : c.wf = true) (p : Nat) (rest : Bits
   | insert s => simp [Command.type, Command.enc, SpliceInsert.parse_enc s h]
   | timeSignal t => simp [Command.type, Command.enc, SpliceTime.parse_enc t h]
 
+/-- the section's fields are read back from `bodyFlat` followed by any 32 bits -/
+theorem Signal.parseRd_flat (s : Signal) (h : s.wf = true) (C : Bits) (hC : C.length = 32) :
+    Signal.parseRd ⟨0, s.bodyFlat ++ C⟩ = some
+      ({ sig := s, sectionLength := s.sectionLength, spliceCommandLength := s.command.bytes,
+         spliceCommandType := s.command.type, descriptorLoopLength := s.loopBytes,
+         descriptorLengths := s.descriptors.map (fun d => 4 + d.bodyBytes),
+         crc := bitsToNat C, crcValid := false }, ⟨s.bodyFlat.length + 32, []⟩) := by
+  simp only [Signal.wf, Bool.and_eq_true, decide_eq_true_eq, Bool.not_eq_true'] at h
+  obtain ⟨⟨⟨⟨⟨⟨⟨⟨⟨⟨htid, hsap⟩, hpv⟩, henc⟩, halg⟩, hadj⟩, hcw⟩, htier⟩, hcmd⟩, hds⟩, hsl⟩ := h
+  have hcb : s.command.bytes < 2 ^ 12 := by unfold Signal.sectionLength at hsl; omega
+  have hlb : s.loopBytes < 2 ^ 16 := by unfold Signal.sectionLength at hsl; omega
+  have hty : s.command.type < 2 ^ 8 := by cases s.command <;> simp [Command.type]
+  have hcl := s.command.enc_length
+  have hll := s.loop_length
+  have hfuel := descs_length_le s.descriptors
+  have hbl := s.bodyFlat_length
+  have hloop := parseDescriptors_flat s.descriptors hds
+    ((s.descriptors.flatMap Descriptor.flat ++ C).length + 1)
+    (128 + 8 * s.command.bytes) ((128 + 8 * s.command.bytes) / 8 + s.loopBytes) C
+    (by rw [List.length_append]; omega) (by omega) (by rw [hll]; omega)
+  have hcmdp := Command.parse_enc s.command hcmd 112
+    (putBits 16 s.loopBytes ++ (s.descriptors.flatMap Descriptor.flat ++ C))
+  have hraw := get_raw C 32 (128 + 8 * s.command.bytes + (s.descriptors.flatMap Descriptor.flat).length) [] hC
+  simp only [List.append_nil] at hraw
+  have hpos : s.bodyFlat.length + 32 =
+      128 + 8 * s.command.bytes + (s.descriptors.flatMap Descriptor.flat).length + 32 := by
+    unfold Signal.sectionLength at hbl; omega
+  rw [hpos]
+  simp only [Signal.parseRd, Signal.bodyFlat, Signal.fieldsFlat, Signal.hdr, List.append_assoc]
+  simp only [get_putBits, getBool_putBits, htid, hsap, hsl, hpv, halg, hadj, hcw, htier, hcb, hty, hlb,
+    Option.bind_eq_bind, Option.bind_some, Nat.zero_add, Nat.reduceAdd, hcmdp, hcl, Rd.bytepos,
+    henc, Bool.false_eq_true, if_false]
+  have e1 : 112 + 8 * s.command.bytes + 16 = 128 + 8 * s.command.bytes := by omega
+  simp only [e1, hloop, Option.bind_some, hraw, List.map_map]
+  have hm1 : List.map ((fun x : Descriptor × Nat => x.fst) ∘ fun d => (d, 4 + d.bodyBytes)) s.descriptors
+      = s.descriptors := by
+    have : ((fun x : Descriptor × Nat => x.fst) ∘ fun d : Descriptor => (d, 4 + d.bodyBytes)) = id := rfl
+    rw [this, List.map_id]
+  have hm2 : List.map ((fun x : Descriptor × Nat => x.snd) ∘ fun d => (d, 4 + d.bodyBytes)) s.descriptors
+      = List.map (fun d => 4 + d.bodyBytes) s.descriptors := rfl
+  rw [hm1, hm2, ← henc]
+
+/-- CRC of a section followed by its own CRC bits is zero -/
+theorem crc32_residue (body : Bits) : Crc32.crc32 (body ++ Crc32.crcBits body) = 0 := by
+  unfold Crc32.crc32 Crc32.crcBits
+  rw [Crc32.run_residue, Crc32.bitsToNat_replicate_false]
+
+/-- **parse ∘ encode** on the whole section -/
+theorem Signal.parse_encode (s : Signal) (h : s.wf = true) :
+    Signal.parse s.encode = some
+      { sig := s, sectionLength := s.sectionLength, spliceCommandLength := s.command.bytes,
+        spliceCommandType := s.command.type, descriptorLoopLength := s.loopBytes,
+        descriptorLengths := s.descriptors.map (fun d => 4 + d.bodyBytes),
+        crc := Crc32.crc32 s.encBody, crcValid := true } := by
+  have hC := Crc32.crcBits_length s.bodyFlat
+  unfold Signal.parse Signal.encode
+  rw [Signal.encBody_eq, Signal.parseRd_flat s h _ hC]
+  have ht : List.take (s.bodyFlat.length + 32) (s.bodyFlat ++ Crc32.crcBits s.bodyFlat) =
+      s.bodyFlat ++ Crc32.crcBits s.bodyFlat := by
+    apply List.take_of_length_le
+    simp [hC]
+  have hcrc : Crc32.crc32 s.bodyFlat = bitsToNat (Crc32.crcBits s.bodyFlat) := rfl
+  simp only [Option.map_some, ht, crc32_residue, hcrc, beq_self_eq_true]
+
 end DashLive.Scte35
